@@ -1,0 +1,36 @@
+// Copyright © 2020 Attestant Limited.
+// Licensed under the Apache License, Version 2.0 (the "License");
+// you may not use this file except in compliance with the License.
+// You may obtain a copy of the License at
+//
+//     http://www.apache.org/licenses/LICENSE-2.0
+//
+// Unless required by applicable law or agreed to in writing, software
+// distributed under the License is distributed on an "AS IS" BASIS,
+// WITHOUT WARRANTIES OR CONDITIONS OF ANY KIND, either express or implied.
+// See the License for the specific language governing permissions and
+// limitations under the License.
+
+//go:build verif
+
+// Package verifhook provides observation points for external verification harnesses.
+// It is only active when built with the "verif" build tag.
+package verifhook
+
+import "context"
+
+// Enabled is true when the observation points are compiled in.
+const Enabled = true
+
+// Hook is called at every observation point when set.
+// A non-nil error returned from an entry point is returned by the instrumented function.
+var Hook func(ctx context.Context, site string, key []byte, val []byte) error
+
+// Point is an observation point.
+func Point(ctx context.Context, site string, key []byte, val []byte) error {
+	if Hook == nil {
+		return nil
+	}
+
+	return Hook(ctx, site, key, val)
+}
